@@ -131,7 +131,8 @@ MutsOf(c) ==
            \cup {[kind |-> "branch mark", a |-> "", i |-> i, d |-> <<0, 0>>] : i \in {1, Len(c.rows)}}
            \cup {[kind |-> "row removed", a |-> "", i |-> i, d |-> <<0, 0>>] : i \in {Len(c.rows)} \ {1}}
            \cup {[kind |-> "rows swapped", a |-> "", i |-> i, d |-> <<0, 0>>] : i \in {1} \ {Len(c.rows)}}
-           \cup (IF c.extras THEN {[kind |-> "text cell", a |-> "note", i |-> 2, d |-> <<0, 0>>]} ELSE {})
+           \cup (IF c.extras THEN {[kind |-> "text cell", a |-> "note", i |-> 2, d |-> <<0, 0>>]}
+                 ELSE {[kind |-> "column added", a |-> "enth", i |-> 0, d |-> <<0, 0>>]})
          ELSE {})
    \cup (IF c.cls = "model" THEN
            {[kind |-> "model parameter", a |-> k, i |-> 0, d |-> d] : k \in DOMAIN c.model.params, d \in {<<10, 0>>, <<0, 1>>}}
@@ -157,6 +158,8 @@ Apply(c, m) ==
      [] m.kind = "row removed" -> [c EXCEPT !.rows = DropRow(c.rows, m.i)]
      [] m.kind = "rows swapped" -> [c EXCEPT !.rows = SwapRows(c.rows, 1, Len(c.rows))]
      [] m.kind = "text cell" -> [c EXCEPT !.rows[m.i].note = "changed"]
+     [] m.kind = "column added" -> [c EXCEPT !.extras = TRUE,
+                                             !.rows = [k \in DOMAIN c.rows |-> [c.rows[k] EXCEPT !.enth = Fx(100 * k), !.note = "n"]]]
      [] m.kind = "model parameter" -> [c EXCEPT !.model.params[m.a] = <<c.model.params[m.a][1] + m.d[1], c.model.params[m.a][2] + m.d[2]>>]
      [] m.kind = "model range" -> IF m.a = "prange" THEN [c EXCEPT !.model.prange[m.i] = <<c.model.prange[m.i][1] + m.d[1], 0>>]
                                   ELSE [c EXCEPT !.model.lrange[m.i] = <<c.model.lrange[m.i][1] + m.d[1], 0>>]
